@@ -252,6 +252,7 @@ struct St {
     file_points: u64,
     file_holds: u64,
     natural: bool,
+    yielding: bool,
     joins: u64,
     rescued: u64,
     in_call: Vec<Option<u32>>,
@@ -711,7 +712,10 @@ impl St {
                 // this same thread. While the call is within its natural length the replay does the same (the yield is
                 // the spin guard or a file operation, not a thread waiting for somebody); beyond that it lets others run.
                 let natural = self.natural;
-                self.decide_replay(spec, me, pos, !natural).or(stay)
+                self.yielding = true;
+                let d = self.decide_replay(spec, me, pos, !natural).or(stay);
+                self.yielding = false;
+                d
             }
             Policy::Replay => self.decide_replay(spec, me, pos, must_leave),
             Policy::Serial => {
@@ -823,7 +827,13 @@ impl St {
                     }
                     continue;
                 }
-                break; // not yet
+                // not yet. A yield (the spin guard, which fires at other ticks in a replay than in the recorded run) with
+                // the thread's next listed position close ahead in the same call: the recorded run got there without
+                // handing over, and so does the replay (bounded: the position is reached within SPIN_GUARD ticks)
+                if self.yielding && hp.0 == pos.0 && (hp.1 as u64) <= pos.1 as u64 + SPIN_GUARD {
+                    return Some(me);
+                }
+                break;
             } else {
                 // the list expects another thread to be running here
                 if self.eligible(ht) {
@@ -1450,6 +1460,7 @@ pub fn run_child(pool: &Pool, spec: &RunSpec) -> ! {
         file_points: 0,
         file_holds: 0,
         natural: false,
+        yielding: false,
         joins: 0,
         rescued: 0,
         in_call: vec![None; cap],
